@@ -12,6 +12,10 @@ MUTS = {
  "REVERT-C41-T1": ("C41", "REVERT", "35f0e5b", "time-window:validbefore-in-[2^63,2^64-2]-rejected"),
  "REVERT-C40-M1": ("C40", "REVERT", "bd7db8b", "multialgo:Sign-uses-algorithm-outside-list"),
  "REVERT-C39-K": ("C39", "REVERT", "189504f", "accepted-inconsistent:outerPubOther"),
+ # independently seeded changes (patch files under /verif/seeded): all three were missed before the classes they need existed
+ "SEEDED-C40-rsa-blob-prefix-dropped": ("C40", "PATCH", "/verif/seeded/C40-rsa-blob-prefix-dropped/patch.diff", ""),   # needs bytes prepended to a blob
+ "SEEDED-C39-ecdsa-point-and": ("C39", "PATCH", "/verif/seeded/C39-ecdsa-point-and/patch.diff", ""),                   # needs a point sharing one coordinate with D*G
+ "SEEDED-C41-critical-found-sticky": ("C41", "PATCH", "/verif/seeded/C41-critical-found-sticky/patch.diff", ""),       # needs >= 2 critical options, repeated calls
  "C41-critical-default-accept": ("C41", "ssh/certs.go", "\t\tfound := false\n\t\tfor _, supp := range c.SupportedCriticalOptions {",
                                  "\t\tfound := len(c.SupportedCriticalOptions) == 0\n\t\tfor _, supp := range c.SupportedCriticalOptions {"),  # pkgtest FAIL
  "C41-authenticate-type": ("C41", "ssh/certs.go", "\tif cert.CertType != UserCert {", "\tif cert.CertType == HostCert {"),                      # pkgtest ok
@@ -44,7 +48,9 @@ def run(name, pkgtest):
     shutil.rmtree(d, ignore_errors=True)
     subprocess.run(["rsync", "-a", "--exclude", ".git", "/repo/", d + "/"], check=True)
     try:
-        if rel == "REVERT":
+        if rel == "PATCH":
+            subprocess.run(["patch", "-p1", "-s", "-i", old], cwd=d, check=True)
+        elif rel == "REVERT":
             diff = subprocess.run(["git", "-C", "/repo", "show", old, "--", "ssh"], check=True, capture_output=True, text=True).stdout
             subprocess.run(["patch", "-R", "-p1", "-s"], cwd=d, input=diff, text=True, check=True)
         else:
